@@ -7,8 +7,8 @@ object here is JSON-serialisable and is what the reference model
 A *frame spec* is a list of columns  [name, label, values]:
   label  = the dtype label ('int64', 'float64', 'bool', 'object', 'str',
            'string', 'category', 'datetime64[ns]', 'Int64', 'boolean', and,
-           only as the result of a dtype deviation, 'int32', 'float32',
-           'Int32', 'datetime64[us]');
+           only as the result of a dtype deviation or in the type-pair
+           layer, 'int32', 'float32', 'Int32', 'Float64', 'datetime64[us]');
   values = list of None (null) / int / float / bool / str; datetimes are ISO
            strings 'YYYY-MM-DDTHH:MM:SS' (the label says how to read them);
            an 'object' column holds whatever the column it was converted from
@@ -39,7 +39,7 @@ NO_NULL = ('int64', 'int32', 'bool')
 # value kind held by each label ('object' columns carry their own kind)
 KIND = {
     'int64': 'int', 'int32': 'int', 'Int64': 'int', 'Int32': 'int',
-    'float64': 'float', 'float32': 'float',
+    'float64': 'float', 'float32': 'float', 'Float64': 'float',
     'bool': 'bool', 'boolean': 'bool',
     'object': 'text', 'str': 'text', 'string': 'text', 'category': 'text',
     'datetime64[ns]': 'datetime', 'datetime64[us]': 'datetime',
@@ -418,7 +418,9 @@ def relevant_dims(dev):
     if k == 'cell':
         return ['cd', 'prec', 'sort', 'cond', 'ct']
     if k == 'rename' or k == 'delcol':
-        return ['ct', 'sort', 'cd', 'co', 'cx']
+        # the three per-kind selections first: a column that is absent can
+        # be excluded from some kinds of check and not from others
+        return ['ct', 'cd', 'co', 'sort', 'cx']
     if k == 'dtype':
         return ['ct', 'tm', 'cd', 'sort']
     if k == 'swap':
@@ -578,3 +580,125 @@ def neutral_combos(k):
             for i in combo:
                 menu.update(NEUTRAL[i][2])
             yield refname, devs, menu
+
+
+# ------------------------------------------- type pairs (L1-type-pairs layer)
+#
+# Every pair of dtype points, as (actual, expected) AND as (expected, actual),
+# on a column whose values agree or are not checked, so that only the TYPE
+# clause decides - under every type_matching level.  A type point is a dtype
+# label, or 'object:<kind>' for an object column holding values of that kind.
+
+TYPE_POINTS = ['int64', 'int32', 'Int64', 'Int32',
+               'float64', 'float32', 'Float64',
+               'bool', 'boolean',
+               'object:text', 'object:int', 'object:float', 'object:bool',
+               'str', 'string', 'category',
+               'datetime64[ns]', 'datetime64[us]']
+TP_VALUES = {'int': [1, 3], 'float': [1.0, 3.0], 'bool': [True, False],
+             'text': ['a', 'B1'],
+             'datetime': ['2000-01-01T00:00:00', '1999-12-31T23:59:59']}
+TP_VARIANTS = ['empty', 'null', 'values']
+
+
+def tp_label(tp):
+    return tp.split(':')[0]
+
+
+def tp_kind(tp):
+    return tp.split(':')[1] if ':' in tp else KIND[tp]
+
+
+def tp_family(tp):
+    """Label without its bit width / unit (for signatures)."""
+    lab = ''.join(ch for ch in tp_label(tp) if not ch.isdigit())
+    lab = lab.split('[')[0]
+    return lab + (':' + tp_kind(tp) if ':' in tp and tp_kind(tp) != 'text'
+                  else '')
+
+
+def tp_col(name, tp, values):
+    col = [name, tp_label(tp), list(values)]
+    if ':' in tp and tp_kind(tp) != 'text':
+        col.append(tp_kind(tp))
+    return col
+
+
+def type_pairs():
+    """Unordered pairs (incl. a point with itself) of type points."""
+    for i, x in enumerate(TYPE_POINTS):
+        for y in TYPE_POINTS[i:]:
+            yield x, y
+
+
+def tp_frames(x, y, variant):
+    """(frame with the x column, frame with the y column, do the values of
+    the two columns agree) or None when the variant does not apply.  Both
+    frames are  a = the column under test, b = an int64 column that is the
+    same on both sides."""
+    if variant == 'empty':
+        vx, vy, vb, agree = [], [], [], True
+    elif variant == 'null':
+        if tp_label(x) in NO_NULL or tp_label(y) in NO_NULL:
+            return None
+        vx, vy, vb, agree = [None, None], [None, None], [1, 3], True
+    elif variant == 'values':
+        kx, ky = tp_kind(x), tp_kind(y)
+        vx, vy, vb = TP_VALUES[kx], TP_VALUES[ky], [1, 3]
+        agree = kx == ky or set((kx, ky)) == set(('int', 'float'))
+    else:
+        raise ValueError(variant)
+    return ([tp_col('a', x, vx), mk('b', 'int64', vb)],
+            [tp_col('a', y, vy), mk('b', 'int64', vb)], agree)
+
+
+def tp_points(agree, entry):
+    """Option points of a type-pair case: every type_matching level x every
+    form of check_types (x check_data on / off when the values agree; off
+    only when they are of different kinds)."""
+    cds = ['none', 'false'] if agree else ['false']
+    cts = FLAGS if entry == 'chk' else ['none']
+    for tm in DIM_VALUES['tm']:
+        for ct in cts:
+            for cd in cds:
+                yield opts_with(tm=tm, ct=ct, cd=cd)
+
+
+# ------------------------------- shared frame objects (H2-shared-frames layer)
+#
+# Histories of comparisons that are given the SAME DataFrame objects (the
+# caller builds its two frames once and checks them slice by slice, or first
+# against one reference and then against another).  The reference has a row
+# that the value-based condition excludes; the actual frames differ from it
+# inside / outside the slices the conditions select.
+
+SHARED_REF = [mk('a', 'float64', [2.0, None, -1.25]),
+              mk('b', 'int64', [1, 3, -2]),
+              mk('c', 'str', ['a', 'B1', 'a'])]
+SHARED_PAIRS = {
+    'copy': [],
+    'self': [],                      # ONE object given as actual and expected
+    'cell-row0': [['cell', 1, 0, 0]],   # kept by notnull, not by dropfirst
+    'cell-row1': [['cell', 1, 1, 0]],   # kept by dropfirst, not by notnull
+    'rev': [['revrows']],
+    'nullrow': [['addrow', 'front', 1, [0]]],
+}
+SHARED_PAIR_ORDER = ['copy', 'self', 'cell-row0', 'cell-row1', 'rev',
+                     'nullrow']
+SHARED_OPTS = [
+    {}, {'cond': 'all'}, {'cond': 'notnull'}, {'cond': 'dropfirst'},
+    {'cond': 'none'}, {'sort': 'first'},
+    {'sort': 'first', 'cond': 'notnull'}, {'cd': 'false'},
+]
+SHARED_ENTRIES = ('mem', 'chk', 'pq', 'csv')
+
+
+def shared_menu(pair):
+    """[entry, option point] for every op on the frames of `pair`."""
+    out = []
+    for e in SHARED_ENTRIES:
+        if pair == 'self' and e not in ('mem', 'chk'):
+            continue
+        for diff in SHARED_OPTS:
+            out.append([e, opts_with(**diff)])
+    return out
